@@ -72,7 +72,7 @@ def main():
     path = os.path.join(seeds, "verify.json")
     if os.path.exists(path):
         out = json.load(open(path))
-    with cf.ThreadPoolExecutor(max_workers=4) as ex:
+    with cf.ThreadPoolExecutor(max_workers=int(os.environ.get("VERIFY_WORKERS", "4"))) as ex:
         for r in ex.map(lambda s: verify(seeds, s), ids):
             out[r["id"]] = r
             print(r["id"], "CONFIRMED" if r.get("confirmed") else "NOT CONFIRMED", r.get("error", ""), flush=True)
